@@ -12,6 +12,9 @@ P10 == <<0, 0, 0, 0, 1, 56, 0, 0, 0, 1>>
 Fr(id, ver, phone, serial, body) ==
     TerminalFrame([id |-> id, rsv15 |-> 0, ver |-> ver, frag |-> 0, enc3 |-> 0, verbyte |-> 1, phone |-> phone,
                    serial |-> serial, total |-> 0, no |-> 0, body |-> body])
+FrP(id, ver, phone, serial, total, no, body) ==
+    TerminalFrame([id |-> id, rsv15 |-> 0, ver |-> ver, frag |-> 1, enc3 |-> 0, verbyte |-> 1, phone |-> phone,
+                   serial |-> serial, total |-> total, no |-> no, body |-> body])
 \* a frame whose checksum is 7D, sent raw (the tolerated deviation): "... 7D 7E" followed by the next "7E"
 Raw7D == LET x == [id |-> 2, rsv15 |-> 0, ver |-> 0, frag |-> 0, enc3 |-> 0, verbyte |-> 1, phone |-> P6,
                    serial |-> 5, total |-> 0, no |-> 0, body |-> <<0>>]
@@ -22,8 +25,18 @@ Frames ==
     CASE Variant = 1 -> << Fr(2, 0, P6, 1, <<>>), Fr(512, 1, P10, 2, <<126, 125, 1, 2>>), Fr(2, 0, P6, 3, <<>>) >>
       [] Variant = 2 -> << Fr(258, 0, P6, 65535, <<65, 66>>), Raw7D, Fr(2, 1, P10, 0, <<>>), Fr(512, 0, P6, 126, <<125, 2, 126, 126>>) >>
       [] Variant = 3 -> << Fr(512, 0, P6, 9, Long(700)), Fr(2, 0, P6, 10, <<>>), Fr(512, 1, P10, 11, Long(1023)) >>
+      \* sub-packaged transfers inside the stream: an ordinary frame in front of the first part, between the parts and behind the last
+      [] Variant = 4 -> << Fr(2, 0, P6, 1, <<>>), FrP(512, 0, P6, 2, 2, 1, <<1, 2, 126>>), Fr(2, 0, P6, 3, <<>>),
+                           FrP(512, 0, P6, 4, 2, 2, <<125, 3>>), Fr(2, 0, P6, 5, <<>>) >>
+      \* two transfers interleaved, both completed by adjacent frames (possibly in one read), then a one-of-one transfer
+      [] Variant = 5 -> << FrP(2049, 0, P6, 1, 2, 1, <<1, 1>>), FrP(512, 0, P6, 2, 2, 1, <<2, 1>>), FrP(2049, 0, P6, 3, 2, 2, <<1, 2>>),
+                           FrP(512, 0, P6, 4, 2, 2, <<2, 2>>), FrP(1796, 0, P6, 5, 1, 1, <<9>>), Fr(2, 0, P6, 6, <<>>) >>
 Stream == Concat(Frames)
 Ends == [k \in 0..Len(Frames) |-> Len(Concat(SubSeq(Frames, 1, k)))]
+
+\* what the extractor hands over for a stream: frames and completed messages (kind, raw frame, body)
+View(o) == [kind |-> o.kind, raw |-> o.raw, body |-> o.body]
+OneShot(k) == LET r == Feed(InitX, Concat(SubSeq(Frames, 1, k))) IN Mat([i \in 1..Len(r.out) |-> View(r.out[i])])
 
 VARIABLES pos, x, out, bad
 Init == pos = 0 /\ x = InitX /\ out = <<>> /\ bad = FALSE
@@ -32,12 +45,16 @@ Next == \E k \in ReadSizes :
           /\ pos + k <= Len(Stream)
           /\ LET r == Feed(x, SubSeq(Stream, pos + 1, pos + k)) IN
              /\ pos' = pos + k /\ x' = r.x /\ bad' = (bad \/ r.err \/ r.rereq # {})
-             /\ out' = out \o [i \in 1..Len(r.out) |-> r.out[i].raw]
+             /\ out' = out \o [i \in 1..Len(r.out) |-> View(r.out[i])]
 
 Whole == Cardinality({k \in 1..Len(Frames) : Ends[k] <= pos})
-Seg == /\ out = SubSeq(Frames, 1, Whole)
+\* after any prefix, cut anyhow: exactly what the whole frames received so far yield when fed at once, in the same order
+\* (every frame in stream order, a completed message directly behind the part that completed it)
+Seg == /\ out = OneShot(Whole)
+       /\ SelectSeq(out, LAMBDA o : o.kind # "complete") = Mat([k \in 1..Whole |-> [kind |-> Msg(Frames[k]).kind, raw |-> Frames[k], body |-> Msg(Frames[k]).body]])
        /\ x.hist = SubSeq(Stream, Ends[Whole] + 1, pos)
        /\ ~bad
 FramesValid == \A k \in 1..Len(Frames) : Decode(Frames[k]).ok /\ NoInteriorFlag(Frames[k])
-EmitOnce == pos = 0 => CSVWrite("%1$s", <<ToJson([frames |-> Frames])>>, IOEnv.VERIF_OUT)
+EmitOnce == pos = 0 => CSVWrite("%1$s", <<ToJson([frames |-> Frames, expect |-> OneShot(Len(Frames)),
+                                                    counts |-> Mat([k \in 1..(Len(Frames) + 1) |-> Len(OneShot(k - 1))])])>>, IOEnv.VERIF_OUT)
 =============================================================================
